@@ -14,6 +14,8 @@ def run(chk, replay=None):
         "modelled not verified: races between a stop request and a child's completion are the E1 models' job (C01 RefElect, C03, C19)"]
     chk.cov["rule"] = "K2: generated expressions x scripts; non-trivial = script contains a stop or starts pre-stopped, or a non-value outcome"
     chk.prove()
+    import k1; from units import when_all
+    for U in when_all.REGELECT_UNITS: k1.run_unit(chk, U())   # when_all_range / stop_when: callback deregistered before completion, stop forwarded, no late touch (RegElect model)
     fault_probe(chk)
     k2.standard_k2(chk)
     k2v2.standard_k2v2(chk)   # second-generation model Calc2 (lifetimes, contexts, more algorithms): tie (theorems: Properties_*_calc2.v)
